@@ -216,6 +216,9 @@ def evaluate(case: Dict[str, Any], obs: Optional[model.Observed] = None) -> List
 
         sup_names = [s for s in (rule.get("sup") or []) if s in by_name]
         sup_info: Dict[str, Any] = {"sup_groups": {s: rule_chains[s] for s in sup_names}} if sup_names else {}
+        if has_ext:
+            # the chains together with their admissible extender genes (input of the chain clauses)
+            sup_info["reach"] = [sorted(set(g) | may[gi]) for gi, g in enumerate(groups)]
 
         # -- every protocluster holds anchors, and exactly one maximal group of them
         for proto, mine in zip(protos, inside):
